@@ -65,6 +65,8 @@ pub struct GenCfg {
     pub own_receive_max: Option<u16>,
     pub own_max_packet: Option<u32>,
     pub own_topic_alias_max: Option<u16>,
+    /// Executor honours only the waker of the most recent poll (see Config).
+    pub strict_wakers: bool,
 }
 
 impl GenCfg {
@@ -127,6 +129,7 @@ impl GenCfg {
             own_receive_max: None,
             own_max_packet: None,
             own_topic_alias_max: None,
+            strict_wakers: false,
         }
     }
 
@@ -187,6 +190,7 @@ impl<'a> Gen<'a> {
             handles: cfg.handles,
             preset_ids: cfg.preset_ids,
             coalesce: cfg.coalesce,
+            strict_wakers: cfg.strict_wakers,
         };
         let world = World::new(config.clone());
         Gen {
@@ -569,6 +573,10 @@ impl<'a> Gen<'a> {
             if self.rng.chance(1, 4) {
                 props.push(pid::USER_PROPERTY, PropVal::Pair("n".into(), format!("{n}")));
             }
+            if self.rng.chance(1, 8) {
+                // an empty binary value as the very last property of the packet
+                props.push(pid::CORRELATION_DATA, PropVal::Bin(vec![]));
+            }
         }
         let plen = if self.cfg.rich && self.rng.chance(1, 400) {
             // remaining length of 3 or 4 bytes
@@ -739,6 +747,10 @@ impl<'a> Gen<'a> {
     /// Subscriptions on the wire whose stream has not been opened yet.
     pub fn unopened_subs(&self) -> Vec<usize> {
         self.subs_on_wire().into_iter().filter(|s| !self.opened.contains(s)).collect()
+    }
+
+    pub fn opened_contains(&self, op: usize) -> bool {
+        self.opened.contains(&op)
     }
 
     /// Opens the stream of a subscription (bookkeeping shared with the random actions).
